@@ -6,6 +6,7 @@ import DiscretModel.Model.Ingest
 Model driver for engine `room` (local path). Same op lines as `harness/room` (see its `world.rs`):
   case id=<n> keys=<K> dmax=<D> [uids=desc]
   mut s=<site> d=<date> r=<room> [new=1] [adm=<ulist>] [grp=<g>,<g>] [g<g>.u=<ulist>] [g<g>.ua=<ulist>] [g<g>.r=<rlist>]
+  cmut s=<site> d=<date> r=<room> items=<item>;<item>;…   (2..8 updates of one room in flight at once)
   obs s=<site> r=<room>
   restart s=<site>
   sync from=<site> to=<site> r=<room>
@@ -518,6 +519,59 @@ def stepFn (w : World) (kind : String) (rest : List String) : World × String :=
     | _, _, _, _ => (w, "bad-op")
   | _ => (w, "bad-op")
 
+def stepMut (w : World) (rest : List String) : World × String :=
+  match parseMut w rest with
+  | none => (w, "bad-op")
+  | some (s, m, gidx) =>
+    let (w, st) := w.touch s
+    match st.mutate (identOfSite s) w.nextId m with
+    | .error e => (w, errLine e)
+    | .ok st' =>
+      let w := w.setSite s st'
+      let newGroups := (gidx.filter fun g => !w.groups.contains (m.rid, g)).map fun g => (m.rid, g)
+      ({ w with nextId := w.nextId + m.size,
+                rooms := if m.isNew then w.rooms ++ [m.rid] else w.rooms,
+                groups := w.groups ++ newGroups }, "ok")
+
+/-- the `mut` tokens of the items of a `cmut` line: `<g>.r.<e:s:a>` | `<g>.u.<k±>` | `<g>.ua.<k±>` | `a.<k±>`,
+    2..8 of them, existing groups, distinct (list, key), the caller not named in an `a`/`ua` item -/
+def cmutItems (w : World) (toks : List String) (s r : Nat) : Option (List (List String)) :=
+  match kv? toks "items", kv? toks "d" with
+  | some str, some d =>
+    let base := [s!"s={s}", s!"d={d}", s!"r={r}"]
+    let one (item : String) : Option ((String × Nat) × List String) :=
+      match item.splitOn "." with
+      | ["a", elem] =>
+        if elem.contains ',' then none else
+        match parseUList elem with
+        | some [(k, _)] => if k = identOfSite s then none else some (("adm", k), base ++ [s!"adm={elem}"])
+        | _ => none
+      | [g, kind, elem] =>
+        if elem.contains ',' then none else
+        match g.toNat? with
+        | none => none
+        | some gi =>
+          if toString gi ≠ g || !w.groups.contains (r, gi) then none
+          else if kind = "r" then
+            match parseRList elem with
+            | some [(e, _, _)] => some ((s!"g{g}.r", e), base ++ [s!"grp={g}", s!"g{g}.r={elem}"])
+            | _ => none
+          else if kind = "u" || kind = "ua" then
+            match parseUList elem with
+            | some [(k, _)] =>
+              if kind = "ua" && k = identOfSite s then none
+              else some ((s!"g{g}.{kind}", k), base ++ [s!"grp={g}", s!"g{g}.{kind}={elem}"])
+            | _ => none
+          else none
+      | _ => none
+    match (str.splitOn ";").mapM one with
+    | none => none
+    | some l =>
+      let ids := l.map (·.1)
+      if l.length < 2 || l.length > 8 || ids.eraseDups.length ≠ ids.length then none
+      else some (l.map (·.2))
+  | _, _ => none
+
 def stepLine (w : World) (line : String) : World × String :=
   let toks := tokens line
   match toks with
@@ -536,19 +590,22 @@ def stepLine (w : World) (line : String) : World × String :=
     else if w.fn then stepFn w kind rest
     else
       match kind with
-      | "mut" =>
-        match parseMut w rest with
-        | none => (w, "bad-op")
-        | some (s, m, gidx) =>
-          let (w, st) := w.touch s
-          match st.mutate (identOfSite s) w.nextId m with
-          | .error e => (w, errLine e)
-          | .ok st' =>
-            let w := w.setSite s st'
-            let newGroups := (gidx.filter fun g => !w.groups.contains (m.rid, g)).map fun g => (m.rid, g)
-            ({ w with nextId := w.nextId + m.size,
-                      rooms := if m.isNew then w.rooms ++ [m.rid] else w.rooms,
-                      groups := w.groups ++ newGroups }, "ok")
+      | "mut" => stepMut w rest
+      | "cmut" =>
+        match nat? rest "s", nat? rest "r" with
+        | some s, some r =>
+          if !w.rooms.contains r then (w, "bad-op")
+          else
+            match cmutItems w rest s r with
+            | none => (w, "bad-op")
+            | some items =>
+              -- the service handles the updates in an order that is not determined; the items are such that
+              -- the verdicts and the resulting room do not depend on it: fold in item order
+              let (w, outs) := items.foldl (fun (acc : World × List String) toks =>
+                let (w', o) := stepMut acc.1 toks
+                (w', acc.2 ++ [o])) (w, [])
+              (w, ",".intercalate outs)
+        | _, _ => (w, "bad-op")
       | "obs" =>
         match nat? rest "s", nat? rest "r" with
         | some s, some r =>
